@@ -48,7 +48,7 @@ var (
 // (over all calls), multi-fault plans.
 func c06dims(env *core.Env) (B, K1, K2, K2r, K3 int) {
 	if env.Thorough() {
-		return 18, 260, 1040, 2600, 60
+		return 18, 260, 1040, 9000, 60
 	}
 	return 6, 120, 120, 70, 6
 }
